@@ -130,7 +130,7 @@ func c11R2(c *Ctx, rule string) {
 		}
 		var allowed Kinds
 		for i, co := range consumptionOracle {
-			if co.fn == shortName(s.Fn) && co.callee == calleeName(s.Call.Common()) && co.arg == s.ArgDesc {
+			if (co.fn == shortName(s.Fn) || p.inClusterOf(p.funcByShortName(co.fn), s.Fn)) && co.callee == calleeName(s.Call.Common()) && co.arg == s.ArgDesc {
 				matched[i]++
 				for _, k := range co.kinds {
 					allowed |= ek.Sentinel(k)
